@@ -106,6 +106,12 @@ def check_case(case, tier):
             byslot = {}
             for i in present:
                 byslot.setdefault(slots[i], i)
+            # the sums below are over the derivatives the code computes: every species needs one (the solvers hand Fex a work
+            # vector with arbitrary previous content, an unassigned slot is not a zero derivative)
+            unassigned = [N.names_of(case)[i] for s, i in byslot.items() if s not in got]
+            if unassigned:
+                failures.append(("conservation/derivative-not-assigned", f"{method}: no statement assigns ydot of {unassigned}"))
+                continue
             for e in elements:
                 tot = Poly()
                 for s, i in byslot.items():
